@@ -24,7 +24,15 @@ CONSTANTS SrvCases,   \* set of [side: "srv", ctxs: Seq(Ctx), upds: Seq(Upd), in
     Hello == [sni: Name, up: BOOLEAN, alpn: SUBSET STRING, peer: PeerKind, vers: {12, 13}]
     Upd   == [pos: Nat, field: STRING, val: ...]   a runtime update of ONE field of the context at pos (SDS push of a
              new validation CA / leaf certificate, listener or cluster TLS config update); pos = 0 on the upstream side.
-    The configuration a handshake is judged by is the one after ALL updates pushed so far: the last push wins. *)
+    The configuration a handshake is judged by is the one after ALL updates pushed so far: the last push wins.
+
+    Source of certificate material (optional fields, "any" = left to the driver): a context may carry
+      casrc, certsrc \in {"inline", "file", "sds"}   where ca_cert resp. cert_chain/private_key come from
+      capath, certpath \in Nat                        which file (only meaningful for "file")
+    and an update of `ca` / `names` carries how \in {"inline" (other inline material), "newpath" (the config names
+    another file), "samepath" (SAME path, the file content was replaced before the update), "push" (SDS secret push),
+    "cfg" (any other field)}. The property does not care where material comes from: after the update the CA now
+    on disk / configured / pushed decides client authentication, the certificate now configured is presented. *)
 
 PeerKinds == {"none", "self", "ca1", "ca2", "exp1", "nokey1"}
 (* none: no certificate; self: self-signed; ca1/ca2: valid leaf of that CA with its key; exp1: expired leaf of
@@ -34,17 +42,21 @@ Star == "*"
 Min(S) == CHOOSE x \in S : \A y \in S : x <= y
 
 (* ------------------------------------------------------------------ update histories *)
-SetField(c, f, v) == CASE f = "ca"      -> [c EXCEPT !.ca = v]
-                       [] f = "names"   -> [c EXCEPT !.names = v]
-                       [] f = "sn"      -> [c EXCEPT !.sn = v]
-                       [] f = "alpn"    -> [c EXCEPT !.alpn = v]
-                       [] f = "verify"  -> [c EXCEPT !.verify = v]
-                       [] f = "require" -> [c EXCEPT !.require = v]
-                       [] f = "skip"    -> [c EXCEPT !.skip = v]
-                       [] f = "inspector" -> [c EXCEPT !.insp = v]
+Src(c, f) == IF f \in DOMAIN c THEN c[f] ELSE "any"
+How(u) == IF "how" \in DOMAIN u THEN u.how ELSE "auto"
+SetField(c, u) ==
+  LET f == u.field v == u.val IN
+  CASE f = "ca"      -> IF How(u) = "newpath" THEN [c EXCEPT !.ca = v, !.capath = @ + 1] ELSE [c EXCEPT !.ca = v]
+    [] f = "names"   -> IF How(u) = "newpath" THEN [c EXCEPT !.names = v, !.certpath = @ + 1] ELSE [c EXCEPT !.names = v]
+    [] f = "sn"      -> [c EXCEPT !.sn = v]
+    [] f = "alpn"    -> [c EXCEPT !.alpn = v]
+    [] f = "verify"  -> [c EXCEPT !.verify = v]
+    [] f = "require" -> [c EXCEPT !.require = v]
+    [] f = "skip"    -> [c EXCEPT !.skip = v]
+    [] f = "inspector" -> [c EXCEPT !.insp = v]
 (* x is a listener [ctxs, insp] (server side: u.pos >= 1 updates the context at pos, u.pos = 0 the listener's own
    inspector flag) or the cluster's tls config record (upstream side, u.pos = 0) *)
-ApplyUpd(x, u) == IF u.pos = 0 THEN SetField(x, u.field, u.val) ELSE [x EXCEPT !.ctxs[u.pos] = SetField(@, u.field, u.val)]
+ApplyUpd(x, u) == IF u.pos = 0 THEN SetField(x, u) ELSE [x EXCEPT !.ctxs[u.pos] = SetField(@, u)]
 Listener(c) == [ctxs |-> c.ctxs, insp |-> c.insp]
 RECURSIVE ApplyAll(_, _)
 ApplyAll(x, us) == IF us = <<>> THEN x ELSE ApplyAll(ApplyUpd(x, Head(us)), Tail(us))
@@ -96,8 +108,9 @@ UpExpect(cfg, cert) == IF cfg.skip THEN "ok"
 VARIABLES cs,       \* the case (configuration + update history + input)
           live,     \* the configuration the running objects were built from (listener [ctxs, insp] / cluster tls config)
           todo,     \* updates not pushed yet
+          pools,    \* CA pools parsed from files so far: set of <<pos, capath, ca>> (only read by the defect PoolCachedByPath)
           pc, i, dflt, afirst, chosen, served, result
-vars == <<cs, live, todo, pc, i, dflt, afirst, chosen, served, result>>
+vars == <<cs, live, todo, pools, pc, i, dflt, afirst, chosen, served, result>>
 
 (* what the generated hash value covers (confighook.go GenerateHashValue): leaf certificate chain, ALPN, ClientAuth,
    ciphers/curves/versions - NOT the CA pools, the server name or InsecureSkipVerify *)
@@ -119,6 +132,9 @@ Outcomes(e) == IF e = "any" THEN {"ok", "fail"} ELSE {e}
 
 Init == /\ cs \in SrvCases \cup UpCases
         /\ live = (IF cs.side = "srv" THEN Listener(cs) ELSE cs.cfg) /\ todo = cs.upds
+        /\ pools = IF cs.side = "srv"
+                   THEN { <<k, cs.ctxs[k].capath, cs.ctxs[k].ca>> : k \in { j \in DOMAIN cs.ctxs : Src(cs.ctxs[j], "casrc") = "file" } }
+                   ELSE IF Src(cs.cfg, "casrc") = "file" THEN { <<0, cs.cfg.capath, cs.cfg.ca>> } ELSE {}
         /\ pc = "accept" /\ i = 0 /\ dflt = 0 /\ afirst = 0 /\ chosen = 0 /\ served = "-" /\ result = "-"
 
 Srv == cs.side = "srv"
@@ -132,8 +148,20 @@ RefCfg == ApplyAll(cs.cfg, cs.upds)
    from the updated listener config. The named way to go wrong: the rebuilt context is dropped when "nothing changed" *)
 Dropped(u) == \/ ("StaleOnEqualHash" \in Defects /\ ~HashCovered(u.field))
               \/ ("InspectorLagsUpdate" \in Defects /\ u.field = "inspector")    \* manager built before the flag is copied
+(* GetX509Pool reads and parses the CA file every time a context is built. The named way to go wrong: the parsed
+   pool is kept by index string, i.e. for a file by its PATH - a rewritten file is never read again *)
+Target(x, u) == IF cs.side = "srv" /\ u.pos >= 1 THEN x.ctxs[u.pos] ELSE x
+SetCa(x, pos, ca) == IF pos = 0 THEN [x EXCEPT !.ca = ca] ELSE [x EXCEPT !.ctxs[pos].ca = ca]
 Push == /\ pc = "accept" /\ todo # <<>>
-        /\ live' = IF Dropped(Head(todo)) THEN live ELSE ApplyUpd(live, Head(todo))
+        /\ LET u == Head(todo)
+               nl == ApplyUpd(live, u)
+               fileCa == u.field = "ca" /\ Src(Target(nl, u), "casrc") = "file"
+               hit == IF fileCa THEN { e \in pools : e[1] = u.pos /\ e[2] = Target(nl, u).capath } ELSE {}
+           IN IF Dropped(u) THEN live' = live /\ pools' = pools
+              ELSE IF fileCa /\ "PoolCachedByPath" \in Defects /\ hit # {}
+                   THEN live' = SetCa(nl, u.pos, (CHOOSE e \in hit : TRUE)[3]) /\ pools' = pools
+                   ELSE /\ live' = nl
+                        /\ pools' = IF fileCa THEN (pools \ hit) \cup { <<u.pos, Target(nl, u).capath, Target(nl, u).ca>> } ELSE pools
         /\ todo' = Tail(todo)
         /\ UNCHANGED <<cs, pc, i, dflt, afirst, chosen, served, result>>
 
@@ -147,13 +175,13 @@ Accept == /\ pc = "accept" /\ Srv /\ todo = <<>>
              ELSE IF live.insp /\ cs.first = "plain"       \* Peek(): first byte is not 0x16
                   THEN served' = "plain" /\ pc' = "done" /\ result' = "plain"
                   ELSE served' = "tls" /\ pc' = "hello" /\ result' = result
-          /\ UNCHANGED <<cs, live, todo, i, dflt, afirst, chosen>>
+          /\ UNCHANGED <<cs, live, todo, pools, i, dflt, afirst, chosen>>
 
 (* tls.Server reads the first record *)
 Hello == /\ pc = "hello"
          /\ IF cs.first = "plain" THEN pc' = "done" /\ result' = "fail" /\ i' = i
                                   ELSE pc' = "scan" /\ result' = result /\ i' = 1
-         /\ UNCHANGED <<cs, live, todo, dflt, afirst, chosen, served>>
+         /\ UNCHANGED <<cs, live, todo, pools, dflt, afirst, chosen, served>>
 
 (* one iteration of the loop in GetConfigForClient *)
 Scan == /\ pc = "scan" /\ i <= Len(Ctxs)
@@ -164,24 +192,24 @@ Scan == /\ pc = "scan" /\ i <= Len(Ctxs)
                      THEN chosen' = i /\ pc' = "auth" /\ UNCHANGED <<afirst, i>>
                      ELSE /\ afirst' = IF afirst = 0 /\ AlpnMatch(c, cs.hello.alpn) THEN i ELSE afirst
                           /\ i' = i + 1 /\ UNCHANGED <<chosen, pc>>
-        /\ UNCHANGED <<cs, live, todo, served, result>>
+        /\ UNCHANGED <<cs, live, todo, pools, served, result>>
 
 Decide == /\ pc = "scan" /\ i > Len(Ctxs)
           /\ chosen' = IF afirst # 0 THEN afirst ELSE dflt
           /\ IF chosen' = 0 THEN pc' = "done" /\ result' = "fail" ELSE pc' = "auth" /\ result' = result
-          /\ UNCHANGED <<cs, live, todo, i, dflt, afirst, served>>
+          /\ UNCHANGED <<cs, live, todo, pools, i, dflt, afirst, served>>
 
 (* the handshake under the chosen context's ClientAuth / ClientCAs *)
 Auth == /\ pc = "auth"
         /\ result' \in Outcomes(ImplAuth(Ctxs[chosen], cs.hello.peer))
         /\ pc' = "done"
-        /\ UNCHANGED <<cs, live, todo, i, dflt, afirst, chosen, served>>
+        /\ UNCHANGED <<cs, live, todo, pools, i, dflt, afirst, chosen, served>>
 
 (* clientContextManager.Conn: handshake towards the upstream *)
 UpHandshake == /\ pc = "accept" /\ ~Srv /\ todo = <<>>
                /\ result' \in IF "SkipVerifyLeftOn" \in Defects THEN {"ok"} ELSE Outcomes(UpExpect(live, cs.cert))
                /\ pc' = "done" /\ served' = "tls"
-               /\ UNCHANGED <<cs, live, todo, i, dflt, afirst, chosen>>
+               /\ UNCHANGED <<cs, live, todo, pools, i, dflt, afirst, chosen>>
 
 Next == Push \/ Accept \/ Hello \/ Scan \/ Decide \/ Auth \/ UpHandshake
 Spec == Init /\ [][Next]_vars
